@@ -1967,6 +1967,12 @@ class Mailbox:
         - `flags`: A list of flags to set on this message
         - `date_time`: The internal date on this message
         """
+        # A `\Noselect` mailbox holds no messages. Refuse before anything is
+        # written to the folder.
+        #
+        if r"\Noselect" in self.attributes:
+            raise No(f"You can not append to the mailbox '{self.name}'")
+
         # Make sure we convert the IMAP flags to the accepted mh sequences.
         #
         seqs = flags_to_seqs(flags)
@@ -2762,6 +2768,8 @@ class Mailbox:
 
             if dst_mbox.deleted:
                 raise Bad(f"'{dst_mbox.name}' has been deleted")
+            if r"\Noselect" in dst_mbox.attributes:
+                raise No(f"You can not copy to the mailbox '{dst_mbox.name}'")
 
             try:
                 wait_start = time.monotonic()
